@@ -190,6 +190,9 @@ class _ReadSourceGenerator:
             base_type = field_type
             while issubclass(base_type, BaseArray):
                 base_type = base_type.type
+            if not issubclass(base_type, SUPPORTED_TYPES):
+                # Arrays are supported, but only of types the generated code knows how to read
+                raise TypeError(f"Unsupported type for compiler: {base_type}")
             if issubclass(base_type, Pointer) and not issubclass(self.cs.pointer, Packed):
                 # Pointer values are taken from the unpacked struct data, which only exists for struct based types
                 raise TypeError(f"Unsupported pointer type for compiler: {self.cs.pointer}")
